@@ -693,6 +693,18 @@ func c13(e *env) {
 		ncut = 400
 	}
 	kinds := []string{"close-before", "close-after-apply", "close-after-reply", "close-mid", "idle"}
+	// directed: the connection breaks in the middle of a hit reply (after its header, inside the
+	// value) that is the caller's last outstanding reply - for a gat once, for a get on the retry too
+	big := bytes.Repeat([]byte("v"), 256)
+	for _, dc := range []cutCase{
+		{Pool: 1, CutAt: 1, CutKind: "close-mid", Callers: [][]hCall{{{Kind: "set", Key: "d-a", Data: big, Flags: 7}, {Kind: "gat", Key: "d-a", TTL: 100}}}},
+		{Pool: 1, CutAt: 1, CutKind: "close-mid", Repeat: 1, Callers: [][]hCall{{{Kind: "set", Key: "d-a", Data: big, Flags: 7},
+			{Kind: "get", Items: []stack.GItem{{Key: []byte("d-a"), Opaque: 1}}}}}},
+		{Pool: 1, CutAt: 1, CutKind: "close-mid", Callers: [][]hCall{{{Kind: "set", Key: "d-a", Data: big, Flags: 7},
+			{Kind: "get", Items: []stack.GItem{{Key: []byte("d-a"), Opaque: 0}, {Key: []byte("d-a"), Opaque: 0}}}}}},
+	} {
+		runCutCase(e, w, dc)
+	}
 	for i := 0; i < ncut; i++ {
 		c := cutCase{Pool: 1 + r.Intn(3), CutAt: r.Intn(12), CutKind: kinds[r.Intn(len(kinds))]}
 		if r.Chance(30) {
@@ -712,11 +724,22 @@ func c13(e *env) {
 					calls = append(calls, hCall{Kind: "set", Key: k, Data: []byte(fmt.Sprintf("w-%d-%d", cl, j)), Flags: uint32(j)})
 				case 1:
 					calls = append(calls, hCall{Kind: "touch", Key: k, TTL: 100})
+				case 2:
+					if r.Bool() {
+						calls = append(calls, hCall{Kind: "gat", Key: ks[0], TTL: 100}) // ks[0] always holds a non-empty value
+						break
+					}
+					fallthrough
 				default:
 					n := 1 + r.Intn(3)
 					cc := hCall{Kind: "get"}
+					same := r.Chance(30) // the same key several times with identical opaque and quiet flag (as a text `get a a` arrives)
 					for x := 0; x < n; x++ {
-						cc.Items = append(cc.Items, stack.GItem{Key: []byte(ks[r.Intn(2)]), Opaque: uint32(x), Quiet: x < n-1 && r.Bool()})
+						it := stack.GItem{Key: []byte(ks[r.Intn(2)]), Opaque: uint32(x), Quiet: x < n-1 && r.Bool()}
+						if same {
+							it = stack.GItem{Key: []byte(ks[0]), Opaque: 0, Quiet: false}
+						}
+						cc.Items = append(cc.Items, it)
 					}
 					calls = append(calls, cc)
 				}
@@ -771,7 +794,20 @@ func runCutCase(e *env, w *rig.Writer, c cutCase) {
 			h := batched.NewHandler(sock, opts)
 			for j, cl := range calls {
 				done := make(chan string, 1)
-				go func() { done <- callHandler(h, cl) }()
+				if cl.Kind == "gat" {
+					// a get-and-touch across a cut: an error, or the stored value (never an empty phantom hit)
+					go func() {
+						g, err := h.GAT(common.GATRequest{Key: []byte(cl.Key), Exptime: cl.TTL, Opaque: 5})
+						if err == nil && !g.Miss && len(g.Data) == 0 {
+							mu.Lock()
+							problems = append(problems, fmt.Sprintf("caller %d call %d: gat of a key holding a non-empty value returned an empty hit without error (key %q in reply)", ci, j, g.Key))
+							mu.Unlock()
+						}
+						done <- "gat"
+					}()
+				} else {
+					go func() { done <- callHandler(h, cl) }()
+				}
 				select {
 				case s := <-done:
 					// ownership and completeness for gets
